@@ -28,7 +28,8 @@ class Mirror:
         self.ret = {}               # key -> fid
         self.fdone = {}             # fid -> tick
         self.rtimers = []           # (deadline, key)
-        self.callers = []           # [key, fid, done]
+        self.callers = []           # [key, fid, done, arg, key-or-None, more]
+        self.recalls = []           # (fid, cid, arg, key-or-None, more) of callers resumed in this event
         self.ended = []             # bids that ended
 
     # -- internal -----------------------------------------------------------
@@ -61,26 +62,42 @@ class Mirror:
             self.rtimers.append((self.now + self.cfg['rt'], k))
         else:
             self.ret.pop(k, None)
-        for c in self.callers:
-            if c[1] == f:
+        for i, c in enumerate(self.callers):
+            if c[1] == f and not c[2]:
                 c[2] = True
+                if c[5] > 0:
+                    self.recalls.append((f, i, c[3], c[4], c[5] - 1))
 
-    def _call(self, a, k):
-        k = a if k is None else k
+    def _do_recalls(self):
+        rc = sorted(self.recalls, key=lambda r: (r[0], r[1]))
+        self.recalls = []
+        for _, _, a, ko, more in rc:
+            self._chain(a, ko, more)
+
+    def _chain(self, a, ko, more):
+        while True:
+            if not self._call(a, ko, more) or more <= 0:
+                return
+            more -= 1
+
+    def _call(self, a, ko, more=0):
+        """returns True when the call is answered at once"""
+        k = a if ko is None else ko
         if k in self.ret:
             f = self.ret[k]
-            self.callers.append([k, f, f in self.fdone])
-            return
+            self.callers.append([k, f, f in self.fdone, a, ko, more])
+            return f in self.fdone
         f = self.nfut
         self.nfut += 1
         self.ret[k] = f
-        self.callers.append([k, f, False])
+        self.callers.append([k, f, False, a, ko, more])
         its = (self.coll[0] if self.coll else []) + [(k, f)]
         if len(its) < self.maxb:
             self.coll = [its, self.now + self.cfg['bt']]
         else:
             self.coll = None
             self._dispatch(its)
+        return False
 
     def _end(self, b):
         B = self.running.pop(b)
@@ -88,6 +105,7 @@ class Mirror:
         self._release()
         for k, f in B['futs'].items():
             self._resolve(k, f)
+        self._do_recalls()
 
     def deadlines(self):
         d = [t for t, _ in self.rtimers]
@@ -100,6 +118,8 @@ class Mirror:
         kind = ev[0]
         if kind == 'call':
             self._call(ev[1], ev[2])
+        elif kind == 'chain':
+            self._chain(ev[1], ev[2], ev[3])
         elif kind == 'burst':
             for a, k in ev[1]:
                 self._call(a, k)
@@ -125,6 +145,7 @@ class Mirror:
                 return
             if ev[2] in B['futs']:
                 self._resolve(ev[2], B['futs'].pop(ev[2]))
+                self._do_recalls()
             else:
                 self._end(ev[1])
         elif kind in ('raise', 'fin'):
@@ -162,8 +183,11 @@ def finish_all(m, evs, rnd=None, style='fin'):
         m.apply(e)
     ap(['adv', cfg['bt'] + 1])
     guard = 0
-    while m.live() and guard < 64:
+    while (m.live() or m.coll) and guard < 64:
         guard += 1
+        if not m.live():
+            ap(['adv', cfg['bt'] + 1])      # tasks that called again opened a new batch
+            continue
         b = m.live()[0]
         keys = list(m.running[b]['futs'])
         if style == 'values':
@@ -207,7 +231,7 @@ def enum_programs(cfg, alphabet, depth, max_calls, finish='blind', limit=None):
         for e in m_evs:
             m.apply(e)
         for e in alphabet(m, m_evs):
-            if e[0] in ('call', 'burst') and n_calls(m_evs) + (1 if e[0] == 'call' else len(e[1])) > max_calls:
+            if e[0] in ('call', 'burst', 'chain') and n_calls(m_evs) + n_calls([e]) > max_calls:
                 continue
             rec(m_evs + [e])
     rec([])
@@ -233,7 +257,7 @@ def time_grid(m, rnd):
 
 def rand_program(rnd, cfg, n_events, weights, keys=3, args=3, max_calls=10, distinct_keys=False):
     """Random program biased by the mirror.  weights: dict over
-    call/burst/adv/yield/raise/fin/cancel/setmax/junk."""
+    call/chain/burst/adv/yield/raise/fin/cancel/setmax/junk."""
     m = Mirror(cfg)
     evs = []
     kinds = list(weights)
@@ -258,6 +282,11 @@ def rand_program(rnd, cfg, n_events, weights, keys=3, args=3, max_calls=10, dist
             a, k = new_call()
             e = ['call', a, k]
             ncalls += 1
+        elif kind == 'chain' and ncalls + 2 <= max_calls:
+            a, k = new_call()
+            more = rnd.randint(1, min(3, max_calls - ncalls - 1))
+            e = ['chain', a, k, more]
+            ncalls += 1 + more
         elif kind == 'burst' and ncalls + 2 <= max_calls:
             n = rnd.randint(2, min(5, max_calls - ncalls))
             e = ['burst', [new_call() for _ in range(n)]]
